@@ -458,3 +458,17 @@ func (vc *VC) mergeTerm(ins []inEdge, get func(*State) (Term, bool), label strin
 	}
 	return c
 }
+
+// keepPrivate: a havoc of "everything" (unknown callee, modifies *) leaves private ghost fields alone: they are
+// specification-only bookkeeping that no code can reach.
+func (vc *VC) keepPrivate(heaps map[string]Term) map[string]Term {
+	out := map[string]Term{}
+	for _, g := range vc.p.ghosts {
+		if g.g.Private {
+			if t, ok := heaps[g.heap]; ok {
+				out[g.heap] = t
+			}
+		}
+	}
+	return out
+}
